@@ -1,0 +1,186 @@
+//go:build verif
+
+package engine
+
+//@ func Arg
+//@   property C16
+//@   nosafety
+//@   calls k atmost 1
+//@   let tr = resolve(env, t)
+//@   let nr = resolve(env, nth)
+//@   bind ans = Unify#1
+//@   bind ie1 = InstantiationError#1
+//@   bind ie2 = InstantiationError#2
+//@   bind de = domainError#1
+//@   bind te1 = typeError#1
+//@   bind te2 = typeError#2
+//@   ensures[every-position-from-one-to-the-arity-has-its-argument] tr is Compound && nr is Integer && 1 <= (nr as Integer) && (nr as Integer) <= Compound.Arity(tr as Compound) ==> called(ans) && result == ans
+//@   at-call Unify requires[an-answer-only-for-a-position-from-one-to-the-arity-of-a-compound] tr is Compound && nr is Integer && 1 <= (nr as Integer) && (nr as Integer) <= Compound.Arity(tr as Compound)
+//@   at-call Unify requires[the-third-argument-receives-exactly-the-nth-argument-counted-from-one] (a1 == arg && a2 == Compound.Arg(tr as Compound, (nr as Integer) - 1)) || (a2 == arg && a1 == Compound.Arg(tr as Compound, (nr as Integer) - 1))
+//@   at-call Unify requires[the-answer-goes-to-the-caller-s-continuation-under-the-caller-s-bindings] a0 == vm && a3 == k && a4 == env
+//@   ensures[position-zero-and-positions-beyond-the-arity-have-no-argument] tr is Compound && nr is Integer && ((nr as Integer) == 0 || (nr as Integer) > Compound.Arity(tr as Compound)) ==> result == falsePromise
+//@   -- error paths (ISO 8.5.2.3): which error, which valid type / domain, which culprit, built in the caller's environment
+//@   ensures[an-unbound-term-is-an-instantiation-error] tr is Variable ==> called(ie1) && result != nil && result.err is Exception && (result.err as Exception) == ie1
+//@   ensures[an-unbound-position-is-an-instantiation-error] tr is Compound && nr is Variable ==> called(ie2) && result != nil && result.err is Exception && (result.err as Exception) == ie2
+//@   ensures[a-negative-position-is-a-domain-error] tr is Compound && nr is Integer && (nr as Integer) < 0 && (nr as Integer) <= Compound.Arity(tr as Compound) ==> called(de) && result != nil && result.err is Exception && (result.err as Exception) == de
+//@   ensures[a-position-that-is-not-an-integer-is-a-type-error] tr is Compound && !(nr is Variable) && !(nr is Integer) ==> called(te1) && result != nil && result.err is Exception && (result.err as Exception) == te1
+//@   ensures[a-term-that-is-not-compound-is-a-type-error] !(tr is Variable) && !(tr is Compound) ==> called(te2) && result != nil && result.err is Exception && (result.err as Exception) == te2
+//@   at-call InstantiationError requires[instantiation-error-only-for-an-unbound-term-or-position-in-the-caller-s-environment] a0 == env && (tr is Variable || (tr is Compound && nr is Variable))
+//@   at-call domainError requires[not-less-than-zero-with-the-position-as-culprit] a0 == validDomainNotLessThanZero && a1 == nr && a2 == env && tr is Compound && nr is Integer && (nr as Integer) < 0
+//@   at-call typeError#1 requires[integer-expected-with-the-position-as-culprit] a0 == validTypeInteger && a1 == nr && a2 == env && tr is Compound && !(nr is Variable) && !(nr is Integer)
+//@   at-call typeError#2 requires[compound-expected-with-the-term-as-culprit] a0 == validTypeCompound && (a1 == t || a1 == tr) && a2 == env && !(tr is Variable) && !(tr is Compound)
+
+//@ -- a pair as `tuple` builds it: a compound of two arguments
+//@ spec fun isPair(p Term, x Term, y Term) bool = p is *compound && len((p as *compound).args) == 2 && (p as *compound).args[0] == x && (p as *compound).args[1] == y
+//@ spec fun isPairAtomInt(p Term, x Atom, y int) bool = p is *compound && len((p as *compound).args) == 2 && (p as *compound).args[0] is Atom && ((p as *compound).args[0] as Atom) == x &&
+//@     (p as *compound).args[1] is Integer && ((p as *compound).args[1] as Integer) == y
+//@ spec fun isPairTermInt(p Term, x Term, y int) bool = p is *compound && len((p as *compound).args) == 2 && (p as *compound).args[0] == x &&
+//@     (p as *compound).args[1] is Integer && ((p as *compound).args[1] as Integer) == y
+//@ spec fun sameFunctor(p Term, q Term) bool = p is *compound && q is *compound && (p as *compound).functor == (q as *compound).functor
+
+//@ spec abstract anyArg(vm *VM) int
+//@ spec abstract otherArg(vm *VM) int
+
+//@ func Functor
+//@   property C16
+//@   nosafety
+//@   let tr = resolve(env, t)
+//@   let nr = resolve(env, name)
+//@   let ar = resolve(env, arity)
+//@   bind mk0 = Unify#1
+//@   bind mkN = Unify#2
+//@   bind deC = Unify#3
+//@   bind deA = Unify#4
+//@   bind vs, merr = makeSlice#1
+//@   -- decomposition: functor(+Term, ?Name, ?Arity)
+//@   ensures[every-compound-has-its-name-and-arity] tr is Compound ==> called(deC) && result == deC
+//@   ensures[every-atomic-term-has-itself-as-name-and-arity-zero] !(tr is Variable) && !(tr is Compound) ==> called(deA) && result == deA
+//@   at-call Unify#3 requires[name-and-arity-of-a-compound-are-its-functor-and-its-number-of-arguments] tr is Compound && sameFunctor(a1, a2) &&
+//@       ((isPair(a1, name, arity) && isPairAtomInt(a2, Compound.Functor(tr as Compound), Compound.Arity(tr as Compound))) ||
+//@        (isPair(a2, name, arity) && isPairAtomInt(a1, Compound.Functor(tr as Compound), Compound.Arity(tr as Compound))))
+//@   at-call Unify#4 requires[name-and-arity-of-an-atomic-term-are-the-term-itself-and-zero] !(tr is Variable) && !(tr is Compound) && sameFunctor(a1, a2) &&
+//@       ((isPair(a1, name, arity) && isPairTermInt(a2, tr, 0)) || (isPair(a2, name, arity) && isPairTermInt(a1, tr, 0)))
+//@   at-call Unify requires[the-answer-goes-to-the-caller-s-continuation-under-the-caller-s-bindings] a0 == vm && a3 == k && a4 == env
+//@   -- construction: functor(-Term, +Name, +Arity)
+//@   ensures[an-atomic-name-with-arity-zero-is-the-term] tr is Variable && ar is Integer && (ar as Integer) == 0 && !(nr is Variable) && !(nr is Compound) ==> called(mk0) && result == mk0
+//@   at-call Unify#1 requires[with-arity-zero-the-term-is-exactly-the-atomic-name] tr is Variable && ar is Integer && (ar as Integer) == 0 && !(nr is Variable) && !(nr is Compound) &&
+//@       (((a1 == t || a1 == tr) && (a2 == name || a2 == nr)) || ((a2 == t || a2 == tr) && (a1 == name || a1 == nr)))
+//@   ensures[an-atom-with-a-positive-arity-has-its-most-general-term-unless-memory-is-short] tr is Variable && ar is Integer && (ar as Integer) > 0 && nr is Atom ==>
+//@       called(merr) && (merr == nil ==> called(mkN) && result == mkN)
+//@   at-call makeSlice requires[room-for-exactly-arity-arguments] ar is Integer && a0 == (ar as Integer)
+//@   at-call Unify#2 requires[with-a-positive-arity-the-term-is-the-atom-applied-to-exactly-arity-arguments] tr is Variable && ar is Integer && (ar as Integer) > 0 && nr is Atom &&
+//@       (a1 == t || a1 == tr) && a2 is *compound && (a2 as *compound).functor == (nr as Atom) && len((a2 as *compound).args) == (ar as Integer)
+//@   -- the fresh arguments. anyArg(vm) and otherArg(vm) are arbitrary positions, the same throughout: what is proved about them is proved about
+//@   -- every position / every pair of positions (quantifiers over the positions prove as fast, but then the solvers answer `unknown`
+//@   -- instead of a counterexample for every failing clause of Functor)
+//@   loop 1 invariant[index-range] -1 <= $i && $i < len(vs)
+//@   loop 1 invariant[every-slot-passed-holds-a-variable] 0 <= anyArg(vm) && anyArg(vm) <= $i ==> vs[anyArg(vm)] is Variable
+//@   loop 1 invariant[every-slot-passed-holds-a-variable-too] 0 <= otherArg(vm) && otherArg(vm) <= $i ==> vs[otherArg(vm)] is Variable
+//@   loop 1 invariant[the-first-slot-holds-a-variable] 0 <= $i ==> vs[0] is Variable
+//@   loop 1 invariant[the-variables-made-so-far-are-numbered-consecutively-unless-the-counter-wraps] $i >= 0 && (vs[0] as Variable) + len(vs) - 1 <= 9223372036854775807 ==>
+//@       *(&varCounter) == (vs[0] as Variable) + $i &&
+//@       (0 <= anyArg(vm) && anyArg(vm) <= $i ==> (vs[anyArg(vm)] as Variable) == (vs[0] as Variable) + anyArg(vm)) &&
+//@       (0 <= otherArg(vm) && otherArg(vm) <= $i ==> (vs[otherArg(vm)] as Variable) == (vs[0] as Variable) + otherArg(vm))
+//@   at-call Unify#2 requires[every-argument-is-a-variable] 0 <= anyArg(vm) && anyArg(vm) < len((a2 as *compound).args) ==> (a2 as *compound).args[anyArg(vm)] is Variable
+//@   at-call Unify#2 requires[the-arguments-are-pairwise-distinct-variables-unless-the-counter-wraps] ((a2 as *compound).args[0] as Variable) + len((a2 as *compound).args) - 1 <= 9223372036854775807 &&
+//@       0 <= anyArg(vm) && anyArg(vm) < otherArg(vm) && otherArg(vm) < len((a2 as *compound).args) ==> (a2 as *compound).args[anyArg(vm)] != (a2 as *compound).args[otherArg(vm)]
+//@   -- error paths (ISO 8.5.1.3): which error, which valid type / domain, which culprit, built in the caller's environment
+//@   bind ie1 = InstantiationError#1
+//@   bind ie2 = InstantiationError#2
+//@   bind de = domainError#1
+//@   bind teAtomic = typeError#1
+//@   bind teAtom = typeError#2
+//@   bind teInt = typeError#3
+//@   bind re = resourceError#1
+//@   ensures[term-and-arity-unbound-is-an-instantiation-error] tr is Variable && ar is Variable ==> called(ie1) && result != nil && result.err is Exception && (result.err as Exception) == ie1
+//@   ensures[term-and-name-unbound-is-an-instantiation-error] tr is Variable && ar is Integer && (ar as Integer) >= 0 && nr is Variable ==> called(ie2) && result != nil && result.err is Exception && (result.err as Exception) == ie2
+//@   ensures[an-arity-that-is-not-an-integer-is-a-type-error] tr is Variable && !(ar is Variable) && !(ar is Integer) ==> called(teInt) && result != nil && result.err is Exception && (result.err as Exception) == teInt
+//@   ensures[a-negative-arity-is-a-domain-error] tr is Variable && ar is Integer && (ar as Integer) < 0 ==> called(de) && result != nil && result.err is Exception && (result.err as Exception) == de
+//@   ensures[a-compound-name-is-a-type-error] tr is Variable && ar is Integer && (ar as Integer) >= 0 && nr is Compound ==> called(teAtomic) && result != nil && result.err is Exception && (result.err as Exception) == teAtomic
+//@   ensures[a-number-as-name-with-a-positive-arity-is-a-type-error] tr is Variable && ar is Integer && (ar as Integer) > 0 && !(nr is Variable) && !(nr is Compound) && !(nr is Atom) ==>
+//@       called(teAtom) && result != nil && result.err is Exception && (result.err as Exception) == teAtom
+//@   ensures[no-room-for-the-arguments-is-a-resource-error] called(merr) && merr != nil ==> called(re) && result != nil && result.err is Exception && (result.err as Exception) == re
+//@   at-call InstantiationError requires[instantiation-error-only-when-the-term-and-the-arity-or-the-name-are-unbound-in-the-caller-s-environment] a0 == env && tr is Variable && (ar is Variable || (ar is Integer && nr is Variable))
+//@   at-call domainError requires[not-less-than-zero-with-the-arity-as-culprit] a0 == validDomainNotLessThanZero && a1 == ar && a2 == env && tr is Variable && ar is Integer && (ar as Integer) < 0
+//@   at-call typeError#1 requires[atomic-expected-with-the-name-as-culprit] a0 == validTypeAtomic && (a1 == nr || a1 == name) && a2 == env && tr is Variable && ar is Integer && nr is Compound
+//@   at-call typeError#2 requires[atom-expected-with-the-name-as-culprit] a0 == validTypeAtom && (a1 == nr || a1 == name) && a2 == env && tr is Variable && ar is Integer && (ar as Integer) > 0 && !(nr is Atom) && !(nr is Variable) && !(nr is Compound)
+//@   at-call typeError#3 requires[integer-expected-with-the-arity-as-culprit] a0 == validTypeInteger && (a1 == ar || a1 == arity) && a2 == env && tr is Variable && !(ar is Variable) && !(ar is Integer)
+//@   at-call resourceError requires[memory-is-the-resource-that-ran-out] a0 == resourceMemory && a1 == env && called(merr) && merr != nil
+
+//@ -- slice: the elements of a list, dereferenced, in the order in which the list iterator yields them (the iterator itself is abstract:
+//@ -- (*ListIterator).Next/Current/Err are trusted contracts without postconditions, so "these are the elements of the list" is pinned as
+//@ -- "this list, under these bindings, is what the iterator is given; every element it yields is appended once, in order; its error is returned")
+//@ -- slice: its contract is in verif_contracts_c11coll.go (it also carries C16)
+
+//@ -- the list a decomposition answers with: the functor, then the arguments in order (j is an arbitrary position, see anyArg)
+//@ spec fun isListOfCompound(l Term, c Term, j int) bool = l is list &&
+//@     len(l as list) == ite(Compound.Arity(c as Compound) > 0, Compound.Arity(c as Compound), 0) + 1 &&
+//@     (l as list)[0] is Atom && ((l as list)[0] as Atom) == Compound.Functor(c as Compound) &&
+//@     (0 <= j && j < Compound.Arity(c as Compound) ==> (l as list)[j + 1] == Compound.Arg(c as Compound, j))
+//@ spec fun isListOfOne(l Term, x Term) bool = l is list && len(l as list) == 1 && (l as list)[0] == x
+
+//@ func Univ
+//@   property C16
+//@   nosafety
+//@   let tr = resolve(env, t)
+//@   bind parts, serr = slice#1
+//@   bind hd1 = (*Env).Resolve#2
+//@   bind hdN = (*Env).Resolve#3
+//@   bind b1 = (*Env).bind#1
+//@   bind bN = (*Env).bind#2
+//@   bind cerr = (*ListIterator).Err#1
+//@   bind aerr = (*ListIterator).Err#2
+//@   bind deC = Unify#1
+//@   bind deA = Unify#2
+//@   -- decomposition: +Term =.. ?List
+//@   at-store ListIterator.List requires[the-second-argument-is-checked-to-be-a-list] v == list
+//@   at-store ListIterator.Env requires[under-the-caller-s-bindings] v == env
+//@   at-store ListIterator.AllowPartial requires[a-partial-list-is-accepted-as-the-second-argument-of-a-decomposition] v
+//@   loop 2 invariant[functor-first-then-the-arguments-passed-in-order] 0 <= i && len(elems) == i + 1 && (i == 0 || i <= Compound.Arity(tr as Compound)) &&
+//@       elems[0] is Atom && (elems[0] as Atom) == Compound.Functor(tr as Compound) &&
+//@       (0 <= anyArg(vm) && anyArg(vm) < i ==> elems[anyArg(vm) + 1] == Compound.Arg(tr as Compound, anyArg(vm)))
+//@   at-call Unify#1 requires[a-compound-is-the-list-of-its-functor-and-its-arguments-in-order] tr is Compound &&
+//@       ((a1 == list && isListOfCompound(a2, tr, anyArg(vm))) || (a2 == list && isListOfCompound(a1, tr, anyArg(vm))))
+//@   at-call Unify#2 requires[an-atomic-term-is-the-list-of-itself] !(tr is Variable) && !(tr is Compound) && ((a1 == list && isListOfOne(a2, tr)) || (a2 == list && isListOfOne(a1, tr)))
+//@   at-call Unify requires[the-answer-goes-to-the-caller-s-continuation-under-the-caller-s-bindings] a0 == vm && a3 == k && a4 == env
+//@   ensures[every-compound-has-its-list-unless-the-second-argument-cannot-be-a-list] tr is Compound ==> called(cerr) && (cerr == nil ==> called(deC) && result == deC) &&
+//@       (cerr != nil ==> result != nil && result.err == cerr)
+//@   ensures[every-atomic-term-has-its-list-unless-the-second-argument-cannot-be-a-list] !(tr is Variable) && !(tr is Compound) ==> called(aerr) && (aerr == nil ==> called(deA) && result == deA) &&
+//@       (aerr != nil ==> result != nil && result.err == aerr)
+//@   onk[in-a-decomposition-the-continuation-runs-only-if-the-second-argument-can-be-a-list] !(tr is Variable) ==> (called(cerr) && cerr == nil) || (called(aerr) && aerr == nil)
+//@   -- construction: -Term =.. +List. `parts` is what `slice` returns for the caller's list under the caller's bindings (see its contract);
+//@   -- hd1 / hdN is its first element dereferenced, when there is one element / when there are more
+//@   at-call slice requires[the-elements-of-the-caller-s-list-under-the-caller-s-bindings] tr is Variable && a0 == list && a1 == env
+//@   at-call (*Env).Resolve#2 requires[the-only-element-is-inspected-under-the-caller-s-bindings] a0 == env && a1 == parts[0] && tr is Variable && serr == nil && len(parts) == 1
+//@   at-call (*Env).Resolve#3 requires[the-head-of-a-longer-list-is-inspected-under-the-caller-s-bindings] a0 == env && a1 == parts[0] && tr is Variable && serr == nil && len(parts) > 1
+//@   ensures[the-only-element-of-a-one-element-list-is-inspected] tr is Variable && called(serr) && serr == nil && len(parts) == 1 ==> called(hd1) && !called(hdN)
+//@   ensures[the-head-of-a-longer-list-is-inspected] tr is Variable && called(serr) && serr == nil && len(parts) > 1 ==> called(hdN) && !called(hd1)
+//@   at-call (*Env).bind#1 requires[a-one-element-list-of-an-atomic-term-makes-the-term-that-element] tr is Variable && serr == nil && len(parts) == 1 && !(resolve(env, parts[0]) is Variable) && !(resolve(env, parts[0]) is Compound) &&
+//@       a0 == env && a1 == (tr as Variable) && a2 == resolve(env, parts[0])
+//@   at-call (*Env).bind#2 requires[a-longer-list-headed-by-an-atom-makes-the-term-that-atom-applied-to-exactly-the-remaining-elements-in-order] tr is Variable && serr == nil && len(parts) > 1 && resolve(env, parts[0]) is Atom &&
+//@       a0 == env && a1 == (tr as Variable) && a2 is *compound && (a2 as *compound).functor == (resolve(env, parts[0]) as Atom) && len((a2 as *compound).args) == len(parts) - 1 &&
+//@       (0 <= anyArg(vm) && anyArg(vm) < len(parts) - 1 ==> (a2 as *compound).args[anyArg(vm)] == parts[anyArg(vm) + 1])
+//@   -- (which environment the continuation receives cannot be said here: `kenv` is undefined where the continuation runs through Unify, and a
+//@   -- function with both kinds of continuation points cannot use it; pinned instead: the binding is made, exactly one, before the continuation runs)
+//@   onk[in-a-construction-the-continuation-runs-only-after-the-term-has-been-bound-in-one-of-the-two-ways] tr is Variable ==> (called(b1) && !called(bN)) || (called(bN) && !called(b1))
+//@   ensures[every-one-element-list-of-an-atomic-term-has-its-term] called(hd1) && !(hd1 is Variable) && !(hd1 is Compound) ==> called(b1)
+//@   ensures[every-longer-list-headed-by-an-atom-has-its-term] called(hdN) && hdN is Atom ==> called(bN)
+//@   -- error paths of the construction (ISO 8.5.3.3): which error, which valid type / domain, which culprit, built in the caller's environment
+//@   bind de = domainError#1
+//@   bind ie1 = InstantiationError#1
+//@   bind teAtomic = typeError#1
+//@   bind ieN = InstantiationError#2
+//@   bind teAtom = typeError#2
+//@   ensures[a-second-argument-that-is-not-a-list-is-the-error-of-the-walk] tr is Variable && called(serr) && serr != nil ==> result != nil && result.err == serr
+//@   ensures[the-empty-list-is-a-domain-error] tr is Variable && called(serr) && serr == nil && len(parts) == 0 ==> called(de) && result != nil && result.err is Exception && (result.err as Exception) == de
+//@   ensures[a-one-element-list-of-a-variable-is-an-instantiation-error] called(hd1) && hd1 is Variable ==> called(ie1) && result != nil && result.err is Exception && (result.err as Exception) == ie1
+//@   ensures[a-one-element-list-of-a-compound-is-a-type-error] called(hd1) && hd1 is Compound ==> called(teAtomic) && result != nil && result.err is Exception && (result.err as Exception) == teAtomic
+//@   ensures[a-longer-list-headed-by-a-variable-is-an-instantiation-error] called(hdN) && hdN is Variable ==> called(ieN) && result != nil && result.err is Exception && (result.err as Exception) == ieN
+//@   ensures[a-longer-list-headed-by-anything-but-an-atom-is-a-type-error] called(hdN) && !(hdN is Variable) && !(hdN is Atom) ==> called(teAtom) && result != nil && result.err is Exception && (result.err as Exception) == teAtom
+//@   at-call domainError requires[non-empty-list-expected-with-the-list-as-culprit] a0 == validDomainNonEmptyList && a1 == list && a2 == env && tr is Variable && serr == nil && len(parts) == 0
+//@   at-call InstantiationError requires[instantiation-error-only-for-an-unbound-head-in-the-caller-s-environment] a0 == env && tr is Variable && serr == nil && len(parts) >= 1 && resolve(env, parts[0]) is Variable
+//@   at-call typeError#1 requires[atomic-expected-with-the-only-element-as-culprit] a0 == validTypeAtomic && a1 == resolve(env, parts[0]) && a2 == env && tr is Variable && serr == nil && len(parts) == 1 && a1 is Compound
+//@   at-call typeError#2 requires[atom-expected-with-the-head-as-culprit] a0 == validTypeAtom && a1 == resolve(env, parts[0]) && a2 == env && tr is Variable && serr == nil && len(parts) > 1 && !(a1 is Variable) && !(a1 is Atom)
+
+//@ -- sync/atomic: "AddInt64 atomically adds delta to *addr and returns the new value."
+//@ -- (declared in verif_contracts_c16list.go)
